@@ -20,5 +20,14 @@ func controlsC03() []Control {
 		{Name: "leave filter skips the first player", Expect: "R4", Mutate: replaceIn("(*tableEngine).calcLeavePlayers", "for _, player := range currentPlayers {\n\t\texist", "for _, player := range currentPlayers[1:] {\n\t\texist", 0)},
 		{Name: "seated-in flag cleared at settlement", Expect: "R7", Mutate: replaceIn("(*tableEngine).settleGame", "playerState.Bankroll += player.Changed", "playerState.Bankroll += player.Changed\n\t\tplayerState.IsIn = playerState.Bankroll > 0", 0)},
 		{Name: "new seat map leaves seat 0 looking occupied", Expect: "R6", Mutate: replaceIn("NewDefaultSeatMap", "for seatIdx := 0; seatIdx < seatCount; seatIdx++ {", "for seatIdx := 1; seatIdx < seatCount; seatIdx++ {", 0)},
+		{Name: "seat look-up matches every other player", Expect: "R8", Mutate: replaceIn("(*seatManager).getSeatPlayer", "seatPlayer.ID == playerID", "seatPlayer.ID != playerID", 0)},
+		{Name: "RemoveSeats proceeds for unknown ids and rejects known ones", Expect: "R8", Mutate: replaceIn("(*seatManager).RemoveSeats", "if !exist {", "if exist {", 0)},
+		{Name: "RemoveSeats also vacates seat 0", Expect: "R8", Mutate: replaceIn("(*seatManager).RemoveSeats", "targetSeatIDs := make([]int, 0)", "targetSeatIDs := make([]int, 1)", 0)},
+		{Name: "JoinPlayers marks the players not seated-in", Expect: "R8", Mutate: replaceIn("(*seatManager).JoinPlayers", "sm.SeatData[seatID].IsIn = true", "sm.SeatData[seatID].IsIn = false", 0)},
+		{Name: "empty seats are the occupied ones", Expect: "R8", Mutate: replaceIn("(*seatManager).getEmptySeatIDs", "if seatPlayer == nil {", "if seatPlayer != nil {", 0)},
+		{Name: "fixed-seat batch forgets the players it accepted", Expect: "R2", Mutate: replaceIn("(*seatManager).AssignSeats", "\t\tplayerIDs[playerID] = true\n", "", 0)},
+		{Name: "fixed-seat batch accepts a seat held by somebody else", Expect: "R2", Mutate: replaceIn("(*seatManager).AssignSeats", "seatPlayer.ID != playerID {", "seatPlayer.ID == playerID {", 0)},
+		{Name: "random-seat batch skips its first player", Expect: "R2", Mutate: replaceIn("(*seatManager).RandomAssignSeats", "for i := 0; i < len(playerIDs); i++ {", "for i := 1; i < len(playerIDs); i++ {", 0)},
+		{Name: "random-seat batch seats players after a failed draw", Expect: "R2", Mutate: replaceIn("(*seatManager).RandomAssignSeats", "seatIDs, err := sm.randomSeatIDs(len(playerIDs))\n\tif err != nil {", "seatIDs, err := sm.randomSeatIDs(len(playerIDs))\n\tif err == nil {", 0)},
 	}
 }
